@@ -228,8 +228,15 @@ func vfVerifyCorpus() []*vfVCase {
 	peers := &vfVCase{Kind: "corpus", Toks: []vfVTok{{Kind: "minted", Spec: &theirs}, {Kind: "minted", Spec: &mine}},
 		Steps: []vfVStep{{Op: "peer", Tok: 0}, {Op: "verify", Tok: 0}, {Op: "verify", Tok: 1}, {Op: "peer", Tok: 1}, {Op: "verify", Tok: 1},
 			{Op: "revoke", Tok: 1}, {Op: "peer", Tok: 1}, {Op: "verify", Tok: 1}, {Op: "peer", Tok: 0}, {Op: "verify", Tok: 0}}}
+	// tokens that "never expire" (exp = 9999999999, the year 2286, and beyond): revoked means revoked for them too
+	far := vfTokSpec{Sub: "svc", Email: "svc@example.com", ExpIn: 9999999999 - time.Now().Unix(), IatIn: -5, Jti: "jti-corpus-far"}
+	far2 := vfTokSpec{Sub: "svc2", Email: "svc@example.com", ExpIn: 9999999999 - time.Now().Unix(), IatIn: -5}
+	far3 := vfTokSpec{Sub: "svc3", Email: "svc@example.com", ExpIn: 99999999999, IatIn: -5}
+	never := &vfVCase{Kind: "corpus", Toks: []vfVTok{{Kind: "minted", Spec: &far}, {Kind: "minted", Spec: &far2}, {Kind: "minted", Spec: &far3}},
+		Steps: []vfVStep{{Op: "verify", Tok: 0}, {Op: "verify", Tok: 0}, {Op: "revoke", Tok: 0}, {Op: "verify", Tok: 0}, {Op: "verify", Tok: 0},
+			{Op: "revoke", Tok: 1}, {Op: "verify", Tok: 1}, {Op: "verify", Tok: 2}, {Op: "revoke", Tok: 2}, {Op: "verify", Tok: 2}, {Op: "session", Tok: 2}, {Op: "verify", Tok: 2}}}
 	return []*vfVCase{
-		crowd, held, peers,
+		crowd, held, peers, never,
 		{Kind: "corpus", Toks: []vfVTok{{Kind: "minted", Spec: &edge}, {Kind: "minted", Spec: &edgeJ}},
 			Steps: []vfVStep{{Op: "verify", Tok: 0}, {Op: "verify", Tok: 1}, {Op: "verify", Tok: 0}, {Op: "sleep", Ms: 4300},
 				{Op: "verify", Tok: 0}, {Op: "verify", Tok: 1}, {Op: "verify", Tok: 0}}},
